@@ -17,6 +17,9 @@ from typing import Deque, Dict, List, Optional
 LATENCIES = [0.0, 1 / 1024, 1 / 128, 1 / 16, 1 / 1024, 0.0, 1 / 128, 1.0]   # index 7: stalled link
 
 
+_EOF = b""          # queue sentinel (real segments are never empty): the writer of this direction closed
+
+
 class SimNet:
     def __init__(self, loop, tape, stats, allow_stall: bool = False, resegment: bool = True):
         self.loop = loop
@@ -31,10 +34,42 @@ class SimNet:
         self.quiet = False              # teardown: deliver at once, consume no decisions
         self.bytes: Dict[str, int] = {"c2s": 0, "s2c": 0}
         self.latency_sum = 0.0
+        self.transports: Dict[str, "SimTransport"] = {}
+        self._told: set = set()
 
     def transport(self, direction: str, peer_protocol) -> "SimTransport":
         self.peer[direction] = peer_protocol
-        return SimTransport(self, direction)
+        tr = SimTransport(self, direction)
+        self.transports[direction] = tr
+        return tr
+
+    def closed_by(self, direction: str) -> None:
+        """The end writing in `direction` closed its transport: as with TCP, its own protocol learns
+        connection_lost(None) on the next loop iteration and the peer reads EOF after everything
+        already in flight in that direction.  No decision is consumed."""
+        if self.lost or self.quiet:
+            return
+        other = "s2c" if direction == "c2s" else "c2s"
+        own = self.peer.get(other)
+        if own is not None:
+            self.loop.call_soon(self._lost, own, other)
+        self.queues[direction].append(_EOF)
+        when = max(self.loop.time(), self.last_at[direction])
+        self.last_at[direction] = when
+        self.loop.call_at(when, self._deliver, direction)
+        self.stats["probe:transport-closed-by-an-endpoint"] += 1
+
+    def _lost(self, proto, writes_in: str) -> None:
+        if proto in self._told:
+            return
+        self._told.add(proto)
+        tr = self.transports.get(writes_in)
+        if tr is not None:
+            tr._closing = True
+        try:
+            proto.connection_lost(None)
+        except Exception:  # noqa: BLE001
+            pass
 
     def send(self, direction: str, data: bytes) -> None:
         if self.lost or not data:
@@ -46,7 +81,7 @@ class SimNet:
             q.append(data)
             self.loop.call_soon(self._deliver, direction)
             return
-        if self.resegment and q and t.draw(4, "coalesce") == 3:
+        if self.resegment and q and q[-1] is not _EOF and t.draw(4, "coalesce") == 3:
             q[-1] = q[-1] + data           # rides along with the previous, still undelivered write
             self.stats["probe:tcp-coalesced-writes"] += 1
             return
@@ -78,6 +113,9 @@ class SimNet:
             return
         seg = q.popleft()
         proto = self.peer[direction]
+        if seg is _EOF:
+            self._lost(proto, "s2c" if direction == "c2s" else "c2s")
+            return
         try:
             closing = proto.connection.is_closing()
         except AttributeError:
@@ -93,6 +131,9 @@ class SimNet:
         for q in self.queues.values():
             q.clear()
         for p in protocols:
+            if p in self._told:
+                continue
+            self._told.add(p)
             try:
                 p.connection_lost(ConnectionResetError("connection lost (injected)"))
             except Exception:  # noqa: BLE001
@@ -114,10 +155,12 @@ class SimTransport(asyncio.Transport):
         return self._closing or self.net.lost
 
     def close(self) -> None:
-        self._closing = True
+        if not self._closing:
+            self._closing = True
+            self.net.closed_by(self.direction)
 
     def abort(self) -> None:
-        self._closing = True
+        self.close()
 
     def get_extra_info(self, name, default=None):
         if name == "peername":
